@@ -32,12 +32,12 @@ CASE_TIMEOUT = 240
 
 def plan(tier):
     q = tier == "quick"
-    return [{"lane": "main", "n": 200 if q else 6000, "timeout": 900 if q else 3300, "min_per_shard": 5}]
+    return [{"lane": "main", "n": 320 if q else 6000, "timeout": 900 if q else 3300, "min_per_shard": 5}]
 
 
 def floors(tier):
-    return {"nontrivial": 100, "held:main": 150, "counter:same_seed_pairs": 400, "counter:different_seed_pairs": 150,
-            "counter:mean_checks": 50, "counter:global_stream_consumed": 300, "class:stochastic": 80, "class:params": 50,
+    return {"nontrivial": 100, "held:main": 150, "counter:same_seed_pairs": 300, "counter:different_seed_pairs": 120,
+            "counter:mean_checks": 50, "counter:global_stream_consumed": 200, "class:stochastic": 80, "class:params": 50,
             "class:frozen": 25, "class:sampler-dict-args": 15, "class:sampler-tuple-args": 15, "class:simulate_param": 15, "class:solve_determ": 15}
 
 
@@ -160,6 +160,11 @@ def run_case(rng, idx, tier, lane, ctx):
         steps = 0
         if not gridded:
             steps = min(len(np.asarray(T)) - 1 for T in h1[0][2])
+            if not exact:
+                # tau-leap times are deterministic given the states; only the counts are random.  Two independent count
+                # sequences with >= 50 events in total coincide with probability < 1e-10
+                events = min(float(np.asarray(J, dtype=float).sum()) if np.asarray(J).size else 0.0 for J in h1[0][1])
+                steps = steps if events >= 50 else 0
         if not gridded and steps >= 5:
             nontriv = True
             counters["different_seed_pairs"] += 1
@@ -187,7 +192,7 @@ def run_case(rng, idx, tier, lane, ctx):
             evs.append({"rate": rate, "trans": [["T", a, b, "1"]]})
         spec = {"states": sts, "state_decl": "list", "params": P, "param_decl": "list", "derived": [], "events": evs, "odes": [],
                 "limits": [[0, None]] * nS}
-        x0 = [float(rng.randint(1, 10)) for _ in sts]
+        x0 = [float(v) for v in rng.sample(range(1, 13), nS)]   # pairwise distinct: never an equilibrium of the cyclic flows
         m = S.build_sim(spec, GE.param_values(rng, spec), x0)
         desc = {}
         arg = {}
